@@ -35,7 +35,22 @@ def one(d, which, tier):
                         "--exclude", "hb-*", ROOT + "/", vw + "/"], check=True)
         meta = json.load(open(os.path.join(d, "meta.json"))) if os.path.exists(os.path.join(d, "meta.json")) else {}
         target = meta.get("property")
-        if which == "target":
+        if which == "touched" or (which == "target" and not target):
+            # the properties whose theorems, bridges or scenarios exercise the files the change touches
+            by_file = {"range.cpp": ["C16", "C08"], "qiodevicecopier.cpp": ["C14", "C08", "C11"],
+                       "socket.cpp": ["C01", "C02", "C03", "C04", "C11", "C18", "C19"],
+                       "parser.cpp": ["C01", "C04", "C11", "C12", "C13"], "proxysocket.cpp": ["C12", "C13"],
+                       "filesystemhandler.cpp": ["C07", "C08"], "handler.cpp": ["C05", "C06"],
+                       "basicauthmiddleware.cpp": ["C09"], "localauthmiddleware.cpp": ["C17"], "qobjecthandler.cpp": ["C15"],
+                       "server.cpp": ["C10", "C20"], "proxyhandler.cpp": ["C12", "C10"]}
+            touched = subprocess.run(["git", "-C", rw, "diff", "--name-only"], capture_output=True, text=True).stdout.split()
+            pids = []
+            for f in touched:
+                for pid in by_file.get(os.path.basename(f), IDS if f.endswith((".cpp", ".h")) else []):
+                    if pid not in pids:
+                        pids.append(pid)
+            pids = pids or list(IDS)
+        elif which == "target":
             pids = [target]
         elif which == "all":
             pids = ([target] if target else []) + [i for i in IDS if i != target]
